@@ -310,3 +310,21 @@ def shrink(item, rerun):
     out = dict(item)
     out.update({"case": c, "impl": impl, "model": model, "spec_verdict": sb, "shrunk_from_tokens": len(case.split())})
     return out
+
+MANIFEST = {
+    "text": "Coq theorems over all operation sequences (no bound on length), both builds, under the explicit guard no_overflow "
+            "(operands are usize; number of operations + bytes moved < 2^63): C10_tally_exact (each of the grow/shrink/alloc/dealloc "
+            "rows = number of such operations and exact byte sum, |new-old| for reallocations, equal sizes a 0-byte grow; no panic), "
+            "C10_max_is_peak (max count / max size are an upper bound of, and attained by, the live count / live bytes over all "
+            "prefixes, empty prefix included, balances in Z so over-deallocation is covered), C10_thread_isolated (for every "
+            "interleaving a thread's tally is the one its own events produce), C10_clear_resets, C10_build_independent, plus the "
+            "meaning of the boolean specification and model-satisfies-specification. The model (64-bit wrap, overflowing_sub, "
+            "wrapping_abs, debug-panic/release-wrap written out) is tied to src/alloc.rs by differential execution: __verif::tally_run "
+            "and the real AllocProfiler<Mock> path on 1..8 concurrent threads, debug and release, including operands around 2^63/2^64.",
+    "note": "All theorems closed under the global context. Trusted: Coq kernel, extraction, OCaml driver, hooks tally_run / "
+            "thread_alloc_info / thread_alloc_clear, harness/hx-alloc, the hand-written model as validated by the correspondence "
+            "streams; thread_local! per-thread slots are std semantics (exercised, not proved); macOS pthread-key path and 32-bit "
+            "targets not modelled. Outside the guard the theorems claim nothing; only model = implementation is checked there.",
+    "technique": "machine-checked proof in Coq (induction over the operation list, lia over N/Z) + differential correspondence "
+                 "against the real crate and evaluation of the extracted specification on the implementation's tallies",
+}
